@@ -27,12 +27,12 @@ def leafB? (j : Json) : Option (List UInt8) :=
 
 /-- a `*big.Int` position. Base64 strings decode through `SetBytes` (never negative); unquoted
     numbers must be non-negative integers. -/
-def big (j : Json) : D (Option Int) :=
+def big (j : Json) (direct : Bool := false) : D (Option Int) :=
   match j with
   | .null => pure none
   | .num n => if n.exponent = 0 ∧ n.mantissa ≥ 0 then pure (some n.mantissa) else throw ()
   | _ => match leafI? j with
-    | some z => if z < 0 then throw () else pure (some z)
+    | some z => if z < 0 ∧ !direct then throw () else pure (some z)
     | none => match leafB? j with
       | some bs => pure (some (ofBytesBE bs : Int))
       | none => throw ()
@@ -71,10 +71,10 @@ def bytes (j : Json) : D (Option (List UInt8)) :=
       | none => throw ()
 
 /-- `[]*big.Int`. -/
-def bigList (j : Json) : D (List (Option Int)) :=
+def bigList (j : Json) (direct : Bool := false) : D (List (Option Int)) :=
   match j with
   | .null => pure []
-  | .arr a => a.toList.mapM big
+  | .arr a => a.toList.mapM (big · direct)
   | _ => throw ()
 
 def parseIntKey (s : String) : D Int :=
@@ -95,22 +95,22 @@ def dedupKeys {α} (l : List (Int × α)) : List (Int × α) :=
   l.foldl (fun acc kv => acc.filter (·.1 ≠ kv.1) ++ [kv]) []
 
 /-- `map[int]*big.Int`. -/
-def intMap (j : Json) : D IntMap :=
+def intMap (j : Json) (direct : Bool := false) : D IntMap :=
   match j with
   | .null => pure []
   | .obj _ => do
     if (leafI? j).isSome || (leafB? j).isSome then throw ()
-    let l ← (← objEntries j).mapM fun (k, v) => do pure (← parseIntKey k, ← big v)
+    let l ← (← objEntries j).mapM fun (k, v) => do pure (← parseIntKey k, ← big v direct)
     pure (dedupKeys l)
   | _ => throw ()
 
 /-- `map[string]*big.Int`. -/
-def strMap (j : Json) : D (List (String × Option Int)) :=
+def strMap (j : Json) (direct : Bool := false) : D (List (String × Option Int)) :=
   match j with
   | .null => pure []
   | .obj _ => do
     if (leafI? j).isSome || (leafB? j).isSome then throw ()
-    (← objEntries j).mapM fun (k, v) => do pure (k, ← big v)
+    (← objEntries j).mapM fun (k, v) => do pure (k, ← big v direct)
   | _ => throw ()
 
 def structObj (j : Json) : D (Option Json) :=
@@ -124,23 +124,23 @@ def sacc (j : Json) : D (Option SignedAccumulator) := do
   | none => pure none
   | some o => pure (some { data := ← bytes (optField o "data"), pkCounter := ← uint (optField o "pk") })
 
-def nonrev (j : Json) : D (Option NonRevProof) := do
+def nonrev (j : Json) (direct : Bool := false) : D (Option NonRevProof) := do
   match ← structObj j with
   | none => pure none
   | some o =>
-    pure (some { cr := ← big (optField o "C_r"), cu := ← big (optField o "C_u"),
-                 responses := ← strMap (optField o "responses"), sacc := ← sacc (optField o "sacc") })
+    pure (some { cr := ← big (optField o "C_r") direct, cu := ← big (optField o "C_u") direct,
+                 responses := ← strMap (optField o "responses") direct, sacc := ← sacc (optField o "sacc") })
 
-def rangeProof (j : Json) : D (Option RangeProof) := do
+def rangeProof (j : Json) (direct : Bool := false) : D (Option RangeProof) := do
   match ← structObj j with
   | none => pure none
   | some o =>
-    pure (some { cs := ← bigList (optField o "Cs"), ds := ← bigList (optField o "ds"),
-                 vs := ← bigList (optField o "vs"), v5 := ← big (optField o "v5"),
+    pure (some { cs := ← bigList (optField o "Cs") direct, ds := ← bigList (optField o "ds") direct,
+                 vs := ← bigList (optField o "vs") direct, v5 := ← big (optField o "v5") direct,
                  ld := ← uint (optField o "l_d"), sign := ← int (optField o "sign"),
-                 a := ← uint (optField o "a"), k := ← big (optField o "k") })
+                 a := ← uint (optField o "a"), k := ← big (optField o "k") direct })
 
-def rangeProofs (j : Json) : D (Option (List (Int × List (Option RangeProof)))) :=
+def rangeProofs (j : Json) (direct : Bool := false) : D (Option (List (Int × List (Option RangeProof)))) :=
   match j with
   | .null => pure none
   | .obj _ => do
@@ -149,39 +149,39 @@ def rangeProofs (j : Json) : D (Option (List (Int × List (Option RangeProof))))
       let key ← parseIntKey k
       let ps ← (match v with
         | .null => pure []
-        | .arr a => a.toList.mapM rangeProof
+        | .arr a => a.toList.mapM (rangeProof · direct)
         | _ => throw () : D (List (Option RangeProof)))
       pure (key, ps)
     pure (some (dedupKeys l))
   | _ => throw ()
 
-def proofD (j : Json) : D ProofD := do
+def proofD (j : Json) (direct : Bool := false) : D ProofD := do
   match ← structObj j with
   | none => pure { c := none, a := none, eResponse := none, vResponse := none, aResponses := [],
                    aDisclosed := [], nonrev := none, rangeProofs := none }
   | some o =>
-    pure { c := ← big (optField o "c"), a := ← big (optField o "A"),
-           eResponse := ← big (optField o "e_response"), vResponse := ← big (optField o "v_response"),
-           aResponses := ← intMap (optField o "a_responses"), aDisclosed := ← intMap (optField o "a_disclosed"),
-           nonrev := ← nonrev (optField o "nonrev_proof"), rangeProofs := ← rangeProofs (optField o "rangeproofs") }
+    pure { c := ← big (optField o "c") direct, a := ← big (optField o "A") direct,
+           eResponse := ← big (optField o "e_response") direct, vResponse := ← big (optField o "v_response") direct,
+           aResponses := ← intMap (optField o "a_responses") direct, aDisclosed := ← intMap (optField o "a_disclosed") direct,
+           nonrev := ← nonrev (optField o "nonrev_proof") direct, rangeProofs := ← rangeProofs (optField o "rangeproofs") direct }
 
-def proofU (j : Json) : D ProofU := do
+def proofU (j : Json) (direct : Bool := false) : D ProofU := do
   match ← structObj j with
   | none => pure { u := none, c := none, vPrimeResponse := none, sResponse := none, mUserResponses := [] }
   | some o =>
-    pure { u := ← big (optField o "U"), c := ← big (optField o "c"),
-           vPrimeResponse := ← big (optField o "v_prime_response"), sResponse := ← big (optField o "s_response"),
-           mUserResponses := ← intMap (optField o "m_user_responses") }
+    pure { u := ← big (optField o "U") direct, c := ← big (optField o "c") direct,
+           vPrimeResponse := ← big (optField o "v_prime_response") direct, sResponse := ← big (optField o "s_response") direct,
+           mUserResponses := ← intMap (optField o "m_user_responses") direct }
 
 /-- `ProofList.UnmarshalJSON`: each element is tried as ProofD (kept if `A` present), then as
     ProofU (kept if `U` present), else an error. -/
-def proofList (j : Json) : D (List Proof) :=
+def proofList (j : Json) (direct : Bool := false) : D (List Proof) :=
   match j with
   | .null => pure []
   | .arr a => a.toList.mapM fun e => do
-      let d ← proofD e
+      let d ← proofD e direct
       if d.a.isSome then pure (.d d) else
-      let u ← proofU e
+      let u ← proofU e direct
       if u.u.isSome then pure (.u u) else throw ()
   | _ => throw ()
 
